@@ -405,6 +405,10 @@ theorem slotOk_tr (c : Nat) (S S' : Schema) (ha : AgreeOff c S S') (hs : SchemaF
       refine ⟨.durs _ _ a b, ?_⟩
       rw [clsFree]
       exact clsFreeL_of_all c xs (fun x hx => timeValOk_clsFree c _ x (b x hx))
+    | wraps _ w _ a b =>
+      refine ⟨.wraps _ w _ a b, ?_⟩
+      rw [clsFree]
+      exact clsFreeL_of_all c xs (fun x hx => scalarOk_clsFree c _ x (b x hx))
   | .dict ks vs, h, hf => by
     cases h with
     | flat _ _ a b => simp [flatSlotOk, scalarOk] at b
